@@ -207,7 +207,8 @@ def exhaustive_shard(args):
     return res
 
 
-RICH = ["a", "b", " ", " ", "\t", "\r", "\n", "\n", "\r\n", "\r\n", "\v", "\f", " ", " ", "é", "漢", "x y", "\x1c", "\x85"]
+RICH = ["a", "b", " ", " ", "\t", "\r", "\n", "\n", "\r\n", "\r\n", "\v", "\f", " ", " ", "é", "漢", "x y", "\x1c", "\x85",
+        "<", ">", "&", "'", '"', "<td class=\"n\">", "&amp;"]
 
 
 def random_shard(args):
@@ -235,6 +236,12 @@ def random_shard(args):
             if not chunks or r.random() < 0.1:
                 chunks.append("")
             res["schedules"].add((len(text), tuple(len(c) for c in chunks)))
+            if r.random() < 0.35:
+                # what the engine yields is not always an exact str: under autoescape single expressions arrive as Markup, a str
+                # subclass whose + and join escape the other operand; the text of a chunk is what counts
+                from nunavut.jinja.jinja2 import Markup
+                chunks = [Markup(c) if r.random() < 0.5 else c for c in chunks]
+                res["markup_schedules"] = res.get("markup_schedules", 0) + 1
             for kind in (KINDS_Q + ["lim3", "trim_lim2", "lim0_trim"]):
                 check_case(text, chunks, kind, res)
         if len(res["refs"]) > 40:
